@@ -409,8 +409,11 @@ int main(int argc, char** argv) {
       inOpenCb = false;
       evEmit(J().str("e", "ProcsOpen").raw("p", pathChars(rel)).raw("pids", J::numArr(pids)));
     };
+    // a stalled system: every kill(2) takes this long (virtual time), so a failing attempt can outlast the hook window
+    int slowKillMs = r.chance(profile == "c07" ? 35 : 8) ? r.pick(std::vector<int>{300, 700, 1500}) : 0;
     I.onKill = [&](int pid, int sig) {
       KillOutcome o{0, 0};
+      if (slowKillMs) vclockAdvance(slowKillMs);
       auto it = D.pidKind.find(pid);
       PidKind k = it == D.pidKind.end() ? ESRCH_ : it->second;
       if (k == ESRCH_) o = {-1, ESRCH};
